@@ -18,6 +18,7 @@ import Pyc.Driver.Leaves
 import Pyc.Driver.SizeDom
 import Pyc.Driver.Metadata
 import Pyc.Driver.NativeScript
+import Pyc.Driver.PackFit
 open Lean Pyc.Driver
 
 /-- dispatch on the prefix of `op` -/
@@ -43,6 +44,7 @@ def dispatch (op : String) (j : Json) : R Json :=
   else if op.startsWith "dom." then handleSizeDom op j
   else if op.startsWith "md." then handleMetadata op j
   else if op.startsWith "ns." then handleNativeScript op j
+  else if op.startsWith "pfit." then handlePackFit op j
   else throw s!"unknown op {op}"
 
 def handleLine (line : String) : String :=
